@@ -294,7 +294,34 @@ struct StaleDup : Monitor {
 	std::deque<Old> hist;
 	uint64_t n = 0;
 	double p;
-	StaleDup(World *w) : w(w) { p = w->cfg["faults"].getd("p_stale"); }
+	double p8 = 0;
+	StaleDup(World *w) : w(w) { p = w->cfg["faults"].getd("p_stale"); p8 = w->cfg["faults"].getd("p_stale8"); }
+	// exactly eight packets back: the copy has the sequence number of the packet that is starting now and is delivered BEFORE it
+	void on_send(const Dgram &d, Sock *s) override
+	{
+		if (p8 <= 0 || !s || s->owner != w->srv || !w->all_in_tunnel || d.data.size() < 12) return;
+		DnsMsg m; Bytes pl; UpQuery u;
+		if (!dns_parse_strict(d.data, m).empty() || m.qd.empty() || !answer_payload(m, pl) || pl.size() <= 2 || !(pl[0] & 0x80)) return;
+		if (!decode_upquery(m.qd[0].name.dotted(), w->domain, u) || (u.cmd != 'p' && u.cmd != 'd')) return;
+		int seq = (pl[1] >> 5) & 7, frag = (pl[1] >> 1) & 15, last = pl[1] & 1;
+		if (frag != 0 || last) return;
+		// is this the first time this fragment 0 goes out?  (a re-send of it is not the start of the packet)
+		Bytes key8(pl.begin() + 1, pl.end());
+		if (seen8.count(key8)) return;
+		seen8.insert(key8);
+		for (auto it = hist.rbegin(); it != hist.rend(); ++it) {
+			if (it->seq != seq) continue;
+			DnsMsg m2; Bytes p2;
+			if (!dns_parse_strict(it->d.data, m2).empty() || !answer_payload(m2, p2) || p2.size() <= 2) continue;
+			if (((p2[1] >> 1) & 15) != 0 || (p2[1] & 1)) continue;          // fragment 0 of a multi-fragment packet
+			if (w->S.U("stale8.do", ++n8) >= p8) break;
+			Dgram c = it->d; c.redelivery = true;
+			w->S.deliver(c);
+			w->S.count("fault.stale_dup8");
+			break;
+		}
+	}
+	std::set<Bytes> seen8; uint64_t n8 = 0;
 	void on_deliver(const Dgram &d, Sock *s) override
 	{
 		if (!s || !s->owner || !w->client_of(s->owner) || d.redelivery) return;
